@@ -40,13 +40,17 @@ import (
 
 // ConcCase is the replayable input of one run.
 type ConcCase struct {
-	World      CoreWorld   `json:"world"`
-	Ops        []CoreOp    `json:"ops"`        // generated history; split over the goroutines by kind
-	YieldSeed  uint64      `json:"yieldseed"`  // 0 = no yields in the lock wrapper
-	Mode       string      `json:"mode"`       // "conc" (default) or "seq" (same ops from one goroutine: baseline)
-	GoDeadlock bool        `json:"godeadlock"` // run with go-deadlock enabled: lock wait timeout detection only (its pairwise lock-order detection reports the single-goroutine application<->application nesting and is subsumed by the traced relation)
-	Calm       bool        `json:"calm"`       // calm workload (see concGen): the final state is judged strictly
-	Result     *ConcResult `json:"result,omitempty"`
+	World      CoreWorld `json:"world"`
+	Ops        []CoreOp  `json:"ops"`        // generated history; split over the goroutines by kind
+	YieldSeed  uint64    `json:"yieldseed"`  // 0 = no yields in the lock wrapper
+	Mode       string    `json:"mode"`       // "conc" (default) or "seq" (same ops from one goroutine: baseline)
+	GoDeadlock bool      `json:"godeadlock"` // run with go-deadlock enabled: lock wait timeout detection only (its pairwise lock-order detection reports the single-goroutine application<->application nesting and is subsumed by the traced relation)
+	Calm       bool      `json:"calm"`       // calm workload (see concGen)
+	Ledger     bool      `json:"ledger"`     // ledger workload (see concGenLedger): the final state is judged strictly on every ledger
+	Trigger    bool      `json:"trigger"`    // the workload contains an operation of the kinds behind the recorded ledger-drift findings (concTrigger)
+	// ReleaseAfterAlloc: percentage of announced allocations the mock shim releases again (STOPPED_BY_RM) through the RM goroutine
+	ReleaseAfterAlloc int         `json:"release_after_alloc,omitempty"`
+	Result            *ConcResult `json:"result,omitempty"`
 }
 
 type ConcLock struct {
@@ -187,6 +191,7 @@ type concRun struct {
 	pmu      sync.Mutex
 	panics   []string
 	rng      *Rng
+	shimRng  *Rng // used by takeEvents only (one goroutine)
 }
 
 func (r *concRun) guard(role string, f func()) {
@@ -324,6 +329,14 @@ func (r *concRun) takeEvents() int {
 	for _, e := range evs {
 		if e.Kind == "newalloc" {
 			r.allocs.Add(1)
+			if r.c.ReleaseAfterAlloc > 0 && r.shimRng.Intn(100) < r.c.ReleaseAfterAlloc {
+				select {
+				case r.confirm <- CoreOp{Kind: "release", App: e.App, Key: e.Key, TType: 1}:
+					r.activity.Add(1)
+					n++
+				default:
+				}
+			}
 		}
 		if e.Kind == "release" && (e.TType == 2 || e.TType == 3 || e.TType == 4) {
 			select {
@@ -351,7 +364,7 @@ func runConcCase(c *ConcCase) *ConcResult {
 		return res
 	}
 	concEventsOnce.Do(func() { events.GetEventSystem().StartService() })
-	r := &concRun{d: d, c: c, reg: &concRegistry{m: map[uintptr]string{}}, confirm: make(chan CoreOp, 8192), rng: NewRng(c.YieldSeed ^ 0xC14)}
+	r := &concRun{d: d, c: c, reg: &concRegistry{m: map[uintptr]string{}}, confirm: make(chan CoreOp, 8192), rng: NewRng(c.YieldSeed ^ 0xC14), shimRng: NewRng(c.YieldSeed ^ 0x5141)}
 	r.router = webservice.VerifRouter(d.core.CC)
 	// go-deadlock is reconfigured between runs; background goroutines of the process (event system) read its
 	// options concurrently, which the race detector reports: not toggled in race runs
